@@ -48,10 +48,7 @@ func classifyNonceErr(e string) string {
 	case strings.Contains(e, "scripted failure"):
 		return "ok" // the body failed after the nonce had been accepted
 	}
-	if len(e) > 40 {
-		e = e[:40]
-	}
-	return "err:other(" + strings.ReplaceAll(e, " ", "_") + ")"
+	return "err:" + otherClass(e)
 }
 
 func (e *c02ex) user(name string) *simpeer.User {
